@@ -120,6 +120,21 @@ func (prog *Program) slotType(cls string, ret bool, j int) types.Type {
 			}
 		}
 	}
+	if k := strings.LastIndex(cls, "."); k > 0 && !strings.HasPrefix(cls, "(") && !strings.HasPrefix(cls, "func:") && !strings.Contains(cls, ":") {
+		// a package-level function of a loaded package, named as go/ssa prints it: pkgpath.Name
+		if sp := prog.SSA.ImportedPackage(cls[:k]); sp != nil {
+			if fn := sp.Func(cls[k+1:]); fn != nil {
+				sig := fn.Signature
+				if ret {
+					if j < sig.Results().Len() {
+						return sig.Results().At(j).Type()
+					}
+				} else if j < sig.Params().Len() {
+					return sig.Params().At(j).Type()
+				}
+			}
+		}
+	}
 	if strings.HasPrefix(cls, "yaml.Unmarshal:") {
 		// see mYamlUnmarshal: (string) -> (error, decoded value)
 		switch {
